@@ -9,6 +9,8 @@ import (
 	"go/types"
 	"strings"
 
+	"golang.org/x/tools/go/cfg"
+
 	"rscheck/cfgq"
 	"rscheck/core"
 	"rscheck/driver"
@@ -30,6 +32,7 @@ var Def = driver.PropDef{
 const atomicPkg = "pkg/libs/atomic2"
 
 func Run(c *core.Ctx) {
+	c03.SetProgram(c.Program)
 	if c.Pkg(c03.DbSync) == nil {
 		c.Undecidedf("anchor", c03.DbSync, token.NoPos, "package not loaded")
 		return
@@ -70,11 +73,14 @@ type counter struct {
 
 // atomicMethod: call is method `name` of atomic2.Int64 on variable v (directly or through a pointer deref).
 func atomicMethod(info *types.Info, call *ast.CallExpr) (recv ast.Expr, name string, ok bool) {
-	sel, isSel := ast.Unparen(call.Fun).(*ast.SelectorExpr)
-	if !isSel {
+	sel := c03.MethodSel(info, call)
+	if sel == nil {
 		return nil, "", false
 	}
 	f := core.CalleeFunc(info, call)
+	if f == nil {
+		f, _ = info.Uses[sel.Sel].(*types.Func)
+	}
 	if f == nil || f.Pkg() == nil || !strings.HasSuffix(f.Pkg().Path(), atomicPkg) {
 		return nil, "", false
 	}
@@ -83,6 +89,46 @@ func atomicMethod(info *types.Info, call *ast.CallExpr) (recv ast.Expr, name str
 		return nil, "", false
 	}
 	return sel.X, f.Name(), true
+}
+
+// advance: call adds to an atomic2.Int64 counter: k.Add(x), k.Incr() (delta nil: one),
+// or the read-modify-write k.Set(k.Get() + x) on the same variable.
+func advance(info *types.Info, call *ast.CallExpr) (delta ast.Expr, ok bool) {
+	recv, name, isM := atomicMethod(info, call)
+	if !isM {
+		return nil, false
+	}
+	switch name {
+	case "Incr":
+		return nil, true
+	case "Add":
+		if len(call.Args) == 1 {
+			return call.Args[0], true
+		}
+	case "Set":
+		if len(call.Args) != 1 {
+			return nil, false
+		}
+		be, isB := ast.Unparen(call.Args[0]).(*ast.BinaryExpr)
+		if !isB || be.Op != token.ADD {
+			return nil, false
+		}
+		isGet := func(e ast.Expr) bool {
+			g, isC := ast.Unparen(e).(*ast.CallExpr)
+			if !isC {
+				return false
+			}
+			r2, n2, ok2 := atomicMethod(info, g)
+			return ok2 && n2 == "Get" && baseVar(info, r2) != nil && baseVar(info, r2) == baseVar(info, recv)
+		}
+		switch {
+		case isGet(be.X) && !isGet(be.Y):
+			return be.Y, true
+		case isGet(be.Y) && !isGet(be.X):
+			return be.X, true
+		}
+	}
+	return nil, false
 }
 
 func baseVar(info *types.Info, e ast.Expr) *types.Var {
@@ -146,7 +192,11 @@ func counterOps(c *core.Ctx, info *types.Info, root ast.Node, v *types.Var, dept
 			case "Add", "Incr":
 				*adds++
 			case "Set", "Swap", "CompareAndSwap", "Sub", "Decr":
-				*resets++
+				if _, isAdv := advance(info, call); isAdv {
+					*adds++ // k.Set(k.Get() + x)
+				} else {
+					*resets++
+				}
 			}
 			return true
 		}
@@ -311,6 +361,15 @@ func r1(c *core.Ctx) {
 				dst := "local"
 				if f := core.FieldOf(info, x.Lhs[i]); f != nil {
 					dst = f.Name()
+				} else if st, ok := ast.Unparen(x.Lhs[i]).(*ast.StarExpr); ok {
+					// through a pointer local: `p := &ds.sourceOffset; *p += ...`
+					if o, ok := c03.SoleOrigin(info, b.Decl, st.X); ok && o.Expr != nil && o.Op == 0 && !o.Range && o.Res < 0 {
+						if u, ok := ast.Unparen(o.Expr).(*ast.UnaryExpr); ok && u.Op == token.AND {
+							if f := core.FieldOf(info, u.X); f != nil {
+								dst = f.Name()
+							}
+						}
+					}
 				}
 				key := dst + "+=cumulative-counter"
 				ks, unknown := counterOrigins(c, b, src, 3)
@@ -419,15 +478,18 @@ func r2(c *core.Ctx) {
 	// the copy counter: the atomic2.Int64 that is Add-ed in pSyncPipeCopy's own loop
 	var cnt *types.Var
 	var addCall *ast.CallExpr
+	var addArg ast.Expr // what the counter advances by (nil: Incr)
 	var addCalls []*ast.CallExpr
 	core.Inspect(copyFn.Decl.Body, func(n ast.Node) bool {
 		if call, ok := n.(*ast.CallExpr); ok {
-			if recv, name, ok := atomicMethod(info, call); ok && (name == "Add" || name == "Incr") {
-				if addCall == nil {
-					cnt, addCall = baseVar(info, recv), call
-				}
-				if baseVar(info, recv) == cnt {
-					addCalls = append(addCalls, call)
+			if recv, _, ok := atomicMethod(info, call); ok {
+				if d, isAdv := advance(info, call); isAdv {
+					if addCall == nil {
+						cnt, addCall, addArg = baseVar(info, recv), call, d
+					}
+					if baseVar(info, recv) == cnt {
+						addCalls = append(addCalls, call)
+					}
 				}
 			}
 		}
@@ -437,7 +499,7 @@ func r2(c *core.Ctx) {
 	n := 0
 	for _, cs := range c03.CallsTo(c, ack.Obj) {
 		n++
-		key := fmt.Sprintf("arg/%s", cs.In.Name)
+		key := "arg"
 		if len(cs.Call.Args) != 2 {
 			c.Undecidedf(rule, key, cs.Call.Pos(), "unexpected arity")
 			continue
@@ -446,6 +508,11 @@ func r2(c *core.Ctx) {
 			ci := lf.b.Pkg.TypesInfo
 			arg := lf.e
 			afterFull := lf.gated
+			// keyed by role: what is acknowledged before / after the full sync is done
+			key := "arg/before-full-sync"
+			if afterFull {
+				key = "arg/after-full-sync"
+			}
 			v, isConst := core.IntConst(ci, arg)
 			if lf.zero {
 				v, isConst = 0, true
@@ -509,7 +576,7 @@ func r2(c *core.Ctx) {
 	core.Inspect(copyFn.Decl.Body, func(m ast.Node) bool {
 		if as, ok := m.(*ast.AssignStmt); ok && len(as.Lhs) == 2 && len(as.Rhs) == 1 {
 			if call, ok := ast.Unparen(as.Rhs[0]).(*ast.CallExpr); ok {
-				if f := core.CalleeFunc(info, call); f != nil && f.Name() == "Read" && core.NamedTypePath(info.TypeOf(ast.Unparen(call.Fun).(*ast.SelectorExpr).X)) == "bufio.Reader" {
+				if sel := c03.MethodSel(info, call); sel != nil && sel.Sel.Name == "Read" && core.NamedTypePath(info.TypeOf(sel.X)) == "bufio.Reader" {
 					read = as
 				}
 			}
@@ -525,12 +592,65 @@ func r2(c *core.Ctx) {
 		return
 	}
 	nObj := core.ObjOf(info, read.Lhs[0])
-	okN := len(addCall.Args) == 1 && c03.IsObj(info, nObj)(stripConv(info, addCall.Args[0]))
+	rp, _ := g.Find(read)
+	// isN: e, used at node `use`, is the n of this iteration's Read: the variable itself, or a local
+	// all of whose definitions are result #0 of the Read / copies of n, one of which executes on every
+	// path from the Read to the use
+	var isN func(e ast.Expr, use ast.Node, depth int) bool
+	isN = func(e ast.Expr, use ast.Node, depth int) bool {
+		e = stripConv(info, e)
+		if c03.IsObj(info, nObj)(e) {
+			return true
+		}
+		id, ok := e.(*ast.Ident)
+		if !ok || depth == 0 {
+			return false
+		}
+		v := core.ObjOf(info, id)
+		k := 0
+		for _, o := range c03.Origins1(info, copyFn.Decl, id) {
+			if o.Zero {
+				continue
+			}
+			k++
+			if o.Expr == nil || o.Op != 0 || o.Range || o.Param {
+				return false
+			}
+			if ast.Unparen(o.Expr) == ast.Unparen(read.Rhs[0]) && o.Res <= 0 {
+				continue
+			}
+			if o.Res >= 0 || !isN(o.Expr, o.Stmt, depth-1) {
+				return false
+			}
+		}
+		if k == 0 {
+			return false
+		}
+		up, ok := g.Find(use)
+		if !ok {
+			return false
+		}
+		un := up.Node()
+		w := g.Path(cfgq.Query{From: rp, After: true, Avoid: func(m ast.Node) bool {
+			as, ok := m.(*ast.AssignStmt)
+			if !ok {
+				return false
+			}
+			for _, l := range as.Lhs {
+				if c03.IsObj(info, v)(l) {
+					return true
+				}
+			}
+			return false
+		}, Target: func(m ast.Node) bool { return m == un }})
+		return w == nil
+	}
+	okN := addArg != nil && isN(addArg, addCall, 4)
 	viaWrite := false
-	if len(addCall.Args) == 1 && !okN {
-		if o, ok := c03.SoleOrigin(info, copyFn.Decl.Body, stripConv(info, addCall.Args[0])); ok && o.Expr != nil {
+	if addArg != nil && !okN {
+		if o, ok := c03.SoleOrigin(info, copyFn.Decl.Body, stripConv(info, addArg)); ok && o.Expr != nil {
 			if call, ok := ast.Unparen(o.Expr).(*ast.CallExpr); ok && o.Res <= 0 {
-				if f := core.CalleeFunc(info, call); f != nil && f.Name() == "Write" {
+				if sel := c03.MethodSel(info, call); sel != nil && sel.Sel.Name == "Write" {
 					viaWrite = true
 				}
 			}
@@ -538,13 +658,13 @@ func r2(c *core.Ctx) {
 	}
 	if viaWrite {
 		// the count returned by Write(p[:n]) equals n whenever Write reported no error (io.Writer contract)
-		if o, ok := c03.SoleOrigin(info, copyFn.Decl.Body, stripConv(info, addCall.Args[0])); ok {
+		if o, ok := c03.SoleOrigin(info, copyFn.Decl.Body, stripConv(info, addArg)); ok {
 			if wc, ok := ast.Unparen(o.Expr).(*ast.CallExpr); ok && len(wc.Args) == 1 {
 				arg := wc.Args[0]
 				if ao, ok := c03.SoleOrigin(info, copyFn.Decl.Body, arg); ok && ao.Expr != nil && ao.Op == 0 && !ao.Range && ao.Res <= 0 {
 					arg = ao.Expr
 				}
-				if se, ok := ast.Unparen(arg).(*ast.SliceExpr); ok && se.Low == nil && se.High != nil && c03.IsObj(info, nObj)(se.High) {
+				if se, ok := ast.Unparen(arg).(*ast.SliceExpr); ok && se.Low == nil && se.High != nil && isN(se.High, wc, 4) {
 					okN = true
 				}
 			}
@@ -552,12 +672,15 @@ func r2(c *core.Ctx) {
 	}
 	if okN {
 		c.Okf(rule, "copy-counter/adds-read-length", addCall.Pos(), "the counter advances by the n of this iteration's Read")
-	} else if viaWrite || len(addCall.Args) != 1 || !core.Mentions(info, addCall.Args[0], nObj) && !isLenCall(info, stripConv(info, addCall.Args[0])) {
-		c.Undecidedf(rule, "copy-counter/adds-read-length", addCall.Pos(), "the counter advances by `%s`: not the known form (the n of the Read)", c.Src(addCall.Args[0]))
+	} else if viaWrite || addArg == nil || !core.Mentions(info, addArg, nObj) && !isLenCall(info, stripConv(info, addArg)) {
+		what := "1 (Incr)"
+		if addArg != nil {
+			what = c.Src(addArg)
+		}
+		c.Undecidedf(rule, "copy-counter/adds-read-length", addCall.Pos(), "the counter advances by `%s`: not the known form (the n of the Read)", what)
 	} else {
-		c.Failf(rule, "copy-counter/adds-read-length", addCall.Pos(), "the counter advances by `%s`, not by the number of bytes the Read returned: the acknowledged offset drifts from the bytes really received (e.g. a 100-byte read counted as len(p) = 8192)", c.Src(addCall.Args[0]))
+		c.Failf(rule, "copy-counter/adds-read-length", addCall.Pos(), "the counter advances by `%s`, not by the number of bytes the Read returned: the acknowledged offset drifts from the bytes really received (e.g. a 100-byte read counted as len(p) = 8192)", c.Src(addArg))
 	}
-	rp, _ := g.Find(read)
 	ap, _ := g.Find(addCall)
 	isRead := func(m ast.Node) bool { return m == ast.Node(read) }
 	isAdd := func(m ast.Node) bool {
@@ -586,12 +709,12 @@ func r2(c *core.Ctx) {
 	var write *ast.CallExpr
 	core.Inspect(copyFn.Decl.Body, func(m ast.Node) bool {
 		if call, ok := m.(*ast.CallExpr); ok && len(call.Args) == 1 {
-			if f := core.CalleeFunc(info, call); f != nil && f.Name() == "Write" {
+			if sel := c03.MethodSel(info, call); sel != nil && sel.Sel.Name == "Write" {
 				arg := call.Args[0]
 				if o, ok := c03.SoleOrigin(info, copyFn.Decl.Body, arg); ok && o.Expr != nil && o.Op == 0 && !o.Range && o.Res <= 0 {
 					arg = o.Expr // `chunk := p[:n]`
 				}
-				if se, ok := ast.Unparen(arg).(*ast.SliceExpr); ok && se.Low == nil && se.High != nil && c03.IsObj(info, nObj)(se.High) {
+				if se, ok := ast.Unparen(arg).(*ast.SliceExpr); ok && se.Low == nil && se.High != nil && isN(se.High, call, 4) {
 					write = call
 				}
 			}
@@ -677,6 +800,24 @@ func ackLeaves(c *core.Ctx, b c03.MBody, e ast.Expr, at ast.Node, gated bool, de
 			}
 			return out
 		}
+		if b.Lit != nil {
+			// a parameter of a closure bound once to a local: follow it to the arguments of the closure's calls
+			if idx := litParamIndex(info, b.Lit, v); idx >= 0 {
+				sites := closureCalls(c, b)
+				var out []ackLeaf
+				for _, cs := range sites {
+					if idx < len(cs.Call.Args) && !cs.Call.Ellipsis.IsValid() {
+						out = append(out, ackLeaves(c, cs.In, cs.Call.Args[idx], cs.Call, gated, depth-1)...)
+					} else {
+						return leaf
+					}
+				}
+				if len(out) == 0 {
+					return leaf
+				}
+				return out
+			}
+		}
 		var out []ackLeaf
 		for _, o := range c03.Origins(info, b.Decl.Body, x) {
 			if o.Zero {
@@ -718,6 +859,77 @@ func ackLeaves(c *core.Ctx, b c03.MBody, e ast.Expr, at ast.Node, gated bool, de
 		return out
 	}
 	return leaf
+}
+
+func litParamIndex(info *types.Info, lit *ast.FuncLit, v *types.Var) int {
+	i := 0
+	for _, f := range lit.Type.Params.List {
+		for _, nm := range f.Names {
+			if info.Defs[nm] == types.Object(v) {
+				return i
+			}
+			i++
+		}
+	}
+	return -1
+}
+
+// closureCalls: b is a function literal bound once to a local variable that is
+// only ever called; returns its call sites (nil when the literal is used in
+// any other way).
+func closureCalls(c *core.Ctx, b c03.MBody) []c03.CallSite {
+	info := b.Pkg.TypesInfo
+	var obj types.Object
+	core.InspectAll(b.Decl.Body, func(n ast.Node) bool {
+		switch x := n.(type) {
+		case *ast.AssignStmt:
+			if len(x.Lhs) == len(x.Rhs) {
+				for i, r := range x.Rhs {
+					if ast.Unparen(r) == ast.Expr(b.Lit) {
+						obj = core.ObjOf(info, x.Lhs[i])
+					}
+				}
+			}
+		case *ast.ValueSpec:
+			if len(x.Names) == len(x.Values) {
+				for i, r := range x.Values {
+					if ast.Unparen(r) == ast.Expr(b.Lit) {
+						obj = info.Defs[x.Names[i]]
+					}
+				}
+			}
+		}
+		return true
+	})
+	if obj == nil {
+		return nil
+	}
+	var out []c03.CallSite
+	uses := 0
+	for _, b2 := range c03.AllBodies(c) {
+		if b2.Decl != b.Decl {
+			continue
+		}
+		b2 := b2
+		core.Inspect(b2.Root(), func(n ast.Node) bool {
+			switch x := n.(type) {
+			case *ast.CallExpr:
+				if id, ok := ast.Unparen(x.Fun).(*ast.Ident); ok && core.ObjOf(info, id) == obj {
+					out = append(out, c03.CallSite{In: b2, Call: x})
+				}
+			case *ast.Ident:
+				if info.Uses[x] == obj {
+					uses++
+				}
+			}
+			return true
+		})
+	}
+	// every use of the variable is a call (`f := lit` is a definition, not a use)
+	if uses != len(out) {
+		return nil
+	}
+	return out
 }
 
 func isLenCall(info *types.Info, e ast.Expr) bool {
@@ -765,11 +977,137 @@ func reconnectInLoop(c *core.Ctx) {
 			return ok && core.CalleeFunc(i, cl) == ps.Obj
 		})
 	})
+	// a PSYNC inside a closure that the node calls through a local, or hands to a higher-order helper:
+	// whether it runs before the next copy depends on the closure's result, which the path query does not follow
+	hasPsync := func(root ast.Node) bool {
+		found := false
+		core.InspectAll(root, func(m ast.Node) bool {
+			if cl, ok := m.(*ast.CallExpr); ok {
+				if core.CalleeFunc(info, cl) == ps.Obj || c03.CalleeHas(c, info, cl, 2, func(i *types.Info, m2 ast.Node) bool {
+					c2, ok := m2.(*ast.CallExpr)
+					return ok && core.CalleeFunc(i, c2) == ps.Obj
+				}) {
+					found = true
+				}
+			}
+			return true
+		})
+		return found
+	}
+	mayPsync := func(n ast.Node) bool {
+		for _, call := range cfgq.ExecCalls(n) {
+			if lit := c03.LocalClosure(info, fn.Decl, call.Fun); lit != nil && hasPsync(lit) {
+				return true
+			}
+			for _, a := range call.Args {
+				if lit, ok := ast.Unparen(a).(*ast.FuncLit); ok && hasPsync(lit) {
+					return true
+				}
+				if lit := c03.LocalClosure(info, fn.Decl, a); lit != nil && hasPsync(lit) {
+					return true
+				}
+			}
+		}
+		return false
+	}
+	// `for !attempt() {}` / `if attempt() {...}` with attempt a closure bound to a local that returns
+	// true only after the PSYNC: on the side of the test where it returned true the PSYNC has been issued
+	trueMeansPsync := map[*ast.FuncLit]bool{}
+	computed := map[*ast.FuncLit]bool{}
+	decide := func(lit *ast.FuncLit) bool {
+		if v, ok := trueMeansPsync[lit]; ok {
+			return v
+		}
+		lg := cfgq.OfLit(c.Program, info, lit)
+		inLit := lg.HasCall(func(call *ast.CallExpr, callee types.Object) bool {
+			return callee == types.Object(ps.Obj) || c03.CalleeHas(c, info, call, 2, func(i *types.Info, m ast.Node) bool {
+				cl, ok := m.(*ast.CallExpr)
+				return ok && core.CalleeFunc(i, cl) == ps.Obj
+			})
+		})
+		ok := lit.Type.Results != nil && lit.Type.Results.NumFields() == 1
+		sawTrue := false
+		core.Inspect(lit.Body, func(m ast.Node) bool {
+			ret, isRet := m.(*ast.ReturnStmt)
+			if !isRet || !ok {
+				return true
+			}
+			if len(ret.Results) != 1 {
+				ok = false
+				return true
+			}
+			if tv, isC := info.Types[ret.Results[0]]; isC && tv.Value != nil && tv.Value.String() == "false" {
+				return true
+			} else if !isC || tv.Value == nil {
+				computed[lit] = true // a computed result: the rule cannot say on which paths it is true
+			}
+			sawTrue = true
+			if w := lg.Path(cfgq.Query{Avoid: inLit, Target: func(n ast.Node) bool { return n == ast.Node(ret) }}); w != nil {
+				ok = false
+			}
+			return true
+		})
+		trueMeansPsync[lit] = ok && sawTrue
+		return ok && sawTrue
+	}
+	psyncDone := func(b *cfg.Block, si int) bool {
+		cond := cfgq.CondOf(b)
+		if cond == nil || len(b.Succs) != 2 {
+			return false
+		}
+		e, neg := ast.Unparen(cond), false
+		for {
+			u, ok := e.(*ast.UnaryExpr)
+			if !ok || u.Op != token.NOT {
+				break
+			}
+			e, neg = ast.Unparen(u.X), !neg
+		}
+		call, ok := e.(*ast.CallExpr)
+		if !ok || len(call.Args) != 0 {
+			return false
+		}
+		lit := c03.LocalClosure(info, fn.Decl, call.Fun)
+		if lit == nil || !decide(lit) {
+			return false
+		}
+		return si == 0 && !neg || si == 1 && neg // the side on which the closure returned true
+	}
 	k := 0
 	for _, pt := range g.Points(isCopy) {
 		k++
-		w := g.Path(cfgq.Query{From: pt, After: true, Avoid: isPsync, Target: isCopy})
-		c.Check(rule, fmt.Sprintf("runIncrementalSync/psync-before-copy#%d", k), pt.Node().Pos(), w == nil,
+		key := fmt.Sprintf("runIncrementalSync/psync-before-copy#%d", k)
+		w := g.Path(cfgq.Query{From: pt, After: true, Avoid: isPsync, AvoidEdge: psyncDone, Target: isCopy})
+		steered := func(n ast.Node) bool { // `[!]f()` as a branch condition with f a closure the rule has judged: nothing hidden there
+			e, ok := n.(ast.Expr)
+			if !ok {
+				return false
+			}
+			e = ast.Unparen(e)
+			for {
+				u, isU := e.(*ast.UnaryExpr)
+				if !isU || u.Op != token.NOT {
+					break
+				}
+				e = ast.Unparen(u.X)
+			}
+			call, ok := e.(*ast.CallExpr)
+			if !ok || len(call.Args) != 0 {
+				return false
+			}
+			lit := c03.LocalClosure(info, fn.Decl, call.Fun)
+			if lit == nil {
+				return false
+			}
+			_, judged := trueMeansPsync[lit]
+			return judged && !computed[lit]
+		}
+		hidden := func(n ast.Node) bool { return mayPsync(n) && !steered(n) }
+		if w != nil && g.Path(cfgq.Query{From: pt, After: true, Avoid: cfgq.Or(isPsync, hidden), AvoidEdge: psyncDone, Target: isCopy}) == nil {
+			c.Undecidedf(rule, key, pt.Node().Pos(), "the reconnect PSYNC is issued inside a closure whose result steers the retry loop; the rule cannot tell on this view that it runs before the next copy")
+			continue
+		}
+		c.Check(rule, key, pt.Node().Pos(), w == nil,
 			"after the copy loop broke, the stream may only be copied again after a new PSYNC with the remembered offset: copying from a fresh connection without PSYNC forwards no replication stream (or a full resync payload) into the command parser", w...)
 	}
 	if k == 0 {
